@@ -33,6 +33,7 @@ repo.activate()
 
 from happysimulator.components.consensus.membership import MemberState, MembershipProtocol  # noqa: E402
 from happysimulator.components.consensus.phi_accrual_detector import PhiAccrualDetector  # noqa: E402
+from happysimulator.core.entity import Entity  # noqa: E402
 from happysimulator.core.event import Event  # noqa: E402
 from happysimulator.core.simulation import Simulation  # noqa: E402
 from happysimulator.core.temporal import Instant  # noqa: E402
@@ -79,7 +80,9 @@ ASSUMPTIONS = [
     "phi monotonicity is judged with a relative tolerance of 1e-9 (libm erfc/log10 are not guaranteed monotone to the ulp)",
     "a restarted member (flap class) starts its protocol again with start(), as a restarted process would",
 ]
-EXPECTED_PROBES = ["probe.late_ack_revived_member", "probe.live_member_suspected", "probe.suspect_revived", "probe.indirect_path_taken",
+EXPECTED_PROBES = ["probe.gossip_stale_alive_after_dead_ignored", "probe.gossip_higher_incarnation_revived_dead",
+                   "probe.gossip_dead_verdict_applied", "probe.gossip_update_about_receiver", "probe.gossip_reordered_by_network",
+                   "probe.late_ack_revived_member", "probe.live_member_suspected", "probe.suspect_revived", "probe.indirect_path_taken",
                    "probe.victim_declared_dead", "probe.dead_learned_by_gossip", "probe.victim_only_suspect_at_deadline",
                    "probe.never_heard_pair", "probe.dead_member_spoke_again", "probe.phi_reached_inf",
                    "probe.same_target_probed_twice_in_a_row", "probe.suspected_on_missed_ack",
@@ -124,8 +127,9 @@ def gen(rng, tier):
         return _gen_phi(rng)
     # "failure-early" was split off while the never-heard defect was recorded; since fix dfba083 it is folded back:
     # one failure class, crash instant anywhere (the name is still accepted for the committed replay)
-    klass = "healthy" if r < 0.27 else "healthy-moderate" if r < 0.47 else "failure" if r < 0.84 else "flap"
-    n = rng.choice([3, 3, 4, 5, 5, 6, 7, 9])
+    klass = ("healthy" if r < 0.24 else "healthy-moderate" if r < 0.42 else "failure" if r < 0.72
+             else "flap" if r < 0.86 else "gossip")
+    n = rng.choice([3, 3, 4, 5, 5, 6, 7, 9]) if klass != "gossip" else rng.choice([3, 3, 4, 5, 6])
     p = rng.choice([0.2, 0.5, 1.0, 1.0, 2.0])
     sus = round(p * rng.choice([0.5, 1, 2, 3, 5, 8]), 4)
     thr = rng.choice([1.0, 2.0, 4.0, 8.0, 8.0, 12.0, 16.0])
@@ -153,6 +157,9 @@ def gen(rng, tier):
     dl = deadline_rounds(n, p, thr, 0.05 * p)
     if klass in HEALTHY:
         sc["horizon"] = round(p * rng.choice([30, 60, 120, 200]), 4)
+    elif klass == "gossip":
+        sc["horizon"] = round(max(starts) + p * rng.choice([25, 40, 60]), 4)
+        _gen_gossip(rng, sc, n, p)
     elif klass in ("failure", "failure-early"):
         sc["victim"] = rng.randrange(n)
         lo = max(starts) + (2 * n - 1) * p  # by then every node has certainly probed every other node once
@@ -273,6 +280,78 @@ class NetRef:
         return self.net.send(**kw)
 
 
+class GossipPeer(Entity):
+    """Harness peer of the gossip class: a registered member of the cluster that speaks the wire protocol
+    (well-formed MembershipPing / MembershipAck through the real Network and links) but piggy-backs *generated*
+    update lists.  It acks every ping, so it stays alive in everybody's view."""
+
+    def __init__(self, name, network, targets, ack_updates):
+        super().__init__(name)
+        self._network = network
+        self._targets = targets          # name -> entity
+        self._ack_updates = ack_updates  # cycled over the acks it sends
+        self._acks = 0
+
+    def handle_event(self, event):
+        md = event.context.get("metadata", {})
+        if event.event_type == "MembershipPing":
+            src = md.get("from")
+            if src not in self._targets:
+                return None
+            ups = self._ack_updates[self._acks % len(self._ack_updates)] if self._ack_updates else []
+            self._acks += 1
+            return [self._network.send(source=self, destination=self._targets[src], event_type="MembershipAck",
+                                       payload={"from": self.name, "ack_for": src, "incarnation": 0,
+                                                "updates": [dict(u) for u in ups]}, daemon=True)]
+        if event.event_type == "gossip.send":
+            g = md["g"]
+            return [self._network.send(source=self, destination=self._targets[g["to"]], event_type="MembershipPing",
+                                       payload={"from": self.name, "incarnation": g.get("inc", 0), "gseq": md.get("k", 0),
+                                                "updates": [dict(u) for u in g["updates"]]}, daemon=True)]
+        return None
+
+
+def _gen_updates(rng, names, k):
+    out = []
+    for _ in range(k):
+        out.append({"member": rng.choice(names), "state": rng.choice(["alive", "suspect", "dead", "dead"]),
+                    "incarnation": rng.choice([0, 0, 1, 1, 2, 2, 3])})
+    return out
+
+
+def _gen_gossip(rng, sc, n, p):
+    """Gossip script: generic random triples plus targeted stale/reordered sequences (dead@d then alive@a, a <= d)."""
+    names = [f"m{i}" for i in range(n)] + [f"m{n}", "ghost"]
+    t0 = max(sc["starts"]) + 2 * p
+    span = sc["horizon"] - t0 - 4 * p
+    gossip = []
+    for _ in range(rng.randint(3, 12)):
+        gossip.append({"t": round(t0 + rng.uniform(0, span), 6), "to": f"m{rng.randrange(n)}",
+                       "inc": rng.choice([0, 0, 1, 2]), "updates": _gen_updates(rng, names, rng.randint(1, 4))})
+    for _ in range(rng.randint(1, 3)):  # targeted sequences about one member at one observer
+        obs = rng.randrange(n)
+        mem = rng.choice([x for x in names[:n + 1] if x != f"m{obs}"])
+        d = rng.choice([1, 2, 2, 3])
+        k = rng.choice([0, 0, 1]) if d > 1 else 0
+        seq = []
+        if k:
+            seq.append([{"member": mem, "state": "alive", "incarnation": k}])
+        seq.append([{"member": mem, "state": "dead", "incarnation": d}])
+        for _ in range(rng.randint(1, 3)):
+            a = rng.choice([x for x in range(0, d + 1)] + [d + 1])
+            st = rng.choice(["alive", "alive", "suspect", "dead"])
+            seq.append([{"member": mem, "state": st, "incarnation": a}] + _gen_updates(rng, names, rng.randint(0, 1)))
+        if rng.random() < 0.3:
+            seq.append(list(seq[1]))  # duplicate of the verdict
+        t = t0 + rng.uniform(0, span * 0.5)
+        for ups in seq:
+            gossip.append({"t": round(t, 6), "to": f"m{obs}", "inc": 0, "updates": ups})
+            t += rng.choice([0.01 * p, 0.5 * p, 2 * p])  # close together (may be reordered by the links) or apart
+    gossip.sort(key=lambda g: g["t"])
+    sc["gossip"] = gossip
+    sc["ack_updates"] = [_gen_updates(rng, names, rng.randint(0, 2)) for _ in range(rng.randint(0, 4))]
+
+
 def _validate(sc):
     n = len(sc.get("starts", []))  # cluster size = number of start instants (lets the shrinker drop nodes)
     if not 3 <= n <= 9:
@@ -294,7 +373,22 @@ def _validate(sc):
             raise InvalidScenario("delay bound of the healthy network exceeded")
         if set(pr) - {"base", "jitter"}:
             raise InvalidScenario("only base/jitter allowed")
-    if sc["klass"] not in HEALTHY:
+    if sc["klass"] == "gossip":
+        names = [f"m{i}" for i in range(n + 1)] + ["ghost"]
+
+        def ok_updates(ups):
+            return isinstance(ups, list) and all(
+                isinstance(u, dict) and u.get("member") in names and u.get("state") in ("alive", "suspect", "dead")
+                and isinstance(u.get("incarnation"), int) and not isinstance(u.get("incarnation"), bool)
+                and 0 <= u["incarnation"] <= 5 for u in ups)
+
+        for g in sc.get("gossip", []):
+            if g.get("to") not in names[:n] or g.get("t", -1) < 0 or not ok_updates(g.get("updates")) \
+                    or not isinstance(g.get("inc", 0), int) or not 0 <= g.get("inc", 0) <= 5:
+                raise InvalidScenario("gossip message")
+        if not all(ok_updates(u) for u in sc.get("ack_updates", [])):
+            raise InvalidScenario("ack updates")
+    elif sc["klass"] not in HEALTHY:
         if not 0 <= sc.get("victim", -1) < n or sc.get("crash_t", -1) < 0:
             raise InvalidScenario("victim")
     if sc["klass"] == "flap" and sc.get("restart_t", 0) <= sc["crash_t"]:
@@ -307,7 +401,7 @@ def _validate(sc):
 def run(sc):
     if sc.get("klass") == "phi":
         return run_phi(sc)
-    if sc.get("klass") not in ("healthy", "healthy-moderate", "failure", "failure-early", "flap"):
+    if sc.get("klass") not in ("healthy", "healthy-moderate", "failure", "failure-early", "flap", "gossip"):
         raise InvalidScenario("klass")
     n = _validate(sc)
     klass = sc["klass"]
@@ -320,13 +414,24 @@ def run(sc):
         for b in nodes:
             if a is not b:
                 a.add_member(b)
-    net, links = build_mesh("net", nodes, sc["net_seed"], sc["profile"], sc.get("per_link") or None)
+    peer = None
+    mesh_nodes = list(nodes)
+    if klass == "gossip":
+        peer = GossipPeer(f"m{n}", ref, {x.name: x for x in nodes}, sc.get("ack_updates", []))
+        for a in nodes:
+            a.add_member(peer)
+        mesh_nodes.append(peer)
+    net, links = build_mesh("net", mesh_nodes, sc["net_seed"], sc["profile"], sc.get("per_link") or None)
     ref.net = net
-    sim = Simulation(entities=[net, *nodes, *links.values()], end_time=Instant.from_seconds(sc["horizon"]))
+    sim = Simulation(entities=[net, *mesh_nodes, *links.values()], end_time=Instant.from_seconds(sc["horizon"]))
+    if peer is not None:
+        for k, g in enumerate(sorted(sc.get("gossip", []), key=lambda g: g["t"])):
+            sim.schedule(Event(time=Instant.from_seconds(g["t"]), event_type="gossip.send", target=peer, daemon=True,
+                               context={"metadata": {"g": g, "k": k}}))
     victim = sc.get("victim")
     vname = f"m{victim}" if victim is not None else None
     faults = []
-    if klass not in HEALTHY:
+    if klass not in HEALTHY and klass != "gossip":
         faults.append({"kind": "crash", "node": victim, "start": sc["crash_t"],
                        "end": sc["restart_t"] if klass == "flap" else None})
     fd = FaultDriver(net, nodes, links, faults)
@@ -354,11 +459,22 @@ def run(sc):
         deadline = sc["crash_t"] + dmax + deadline_rounds(n, p, sc["phi_threshold"], dmax)
 
     # observer state: view[x][m] = (state letter, incarnation)
-    view = {x.name: {m: ("A", 0) for m in by_name if m != x.name} for x in nodes}
+    all_names = list(by_name) + ([peer.name] if peer is not None else [])
+    view = {x.name: {m: ("A", 0) for m in all_names if m != x.name} for x in nodes}
+    # reference bookkeeping for "DEAD never reverts without a higher incarnation" (independent of MemberInfo.incarnation):
+    # ref_inc = incarnation the *specified* update rules would have recorded; dead_at = highest incarnation at which the
+    # observer reported the member DEAD; seen_since = highest incarnation about the member received since then
+    ref_inc = {x.name: dict.fromkeys(view[x.name], 0) for x in nodes}
+    dead_at = {x.name: {} for x in nodes}
+    seen_since = {x.name: {} for x in nodes}
+    sim_dead = {}
+    last_gseq = {}
     pr = {"live_member_suspected": 0, "suspect_revived": 0, "victim_declared_dead": 0, "dead_learned_by_gossip": 0,
           "victim_only_suspect_at_deadline": 0, "never_heard_pair": 0, "dead_member_spoke_again": 0,
           "same_target_probed_twice_in_a_row": 0, "phi_samples": 0, "suspected_on_missed_ack": 0,
-          "never_heard_member_suspected": 0, "late_ack_revived_member": 0}
+          "never_heard_member_suspected": 0, "late_ack_revived_member": 0, "gossip_stale_alive_after_dead_ignored": 0,
+          "gossip_higher_incarnation_revived_dead": 0, "gossip_dead_verdict_applied": 0, "gossip_update_about_receiver": 0,
+          "gossip_reordered_by_network": 0}
     last_probe = {}
     past_deadline_checked = [False]
     phi_track = {}  # observer -> (heartbeat count, last phi, last t) for the victim's detector after the crash
@@ -370,6 +486,49 @@ def run(sc):
             return True
         return klass == "flap" and now >= sc["restart_t"]
 
+    def note_updates(x, md, et):
+        """Reference reading of the update list just delivered to x (spec of _apply_updates, incarnation bookkeeping
+        only; the member's state before the message is the observed one)."""
+        sim_dead.clear()
+        vx = view[x.name]
+        if "gseq" in md:
+            if md["gseq"] < last_gseq.get(x.name, -1):
+                pr["gossip_reordered_by_network"] = 1
+            last_gseq[x.name] = max(last_gseq.get(x.name, -1), md["gseq"])
+        ups = md.get("updates") or []
+        src = md.get("from")
+        if src in vx and isinstance(md.get("incarnation"), int):
+            m = src  # direct contact carries the sender's own incarnation
+            if m in dead_at[x.name]:
+                seen_since[x.name][m] = max(seen_since[x.name].get(m, -1), md["incarnation"])
+        state = {}
+        for u in ups:
+            m, st_s, inc = u.get("member"), u.get("state"), u.get("incarnation", 0)
+            if m == x.name:
+                pr["gossip_update_about_receiver"] = 1
+            if m not in vx:
+                continue
+            if m in dead_at[x.name]:
+                seen_since[x.name][m] = max(seen_since[x.name].get(m, -1), inc)
+            cur = state.get(m, vx[m][0])
+            ri = ref_inc[x.name][m]
+            if inc < ri:
+                if cur == "D" and st_s == "alive":
+                    pr["gossip_stale_alive_after_dead_ignored"] = 1
+                continue
+            if st_s == "suspect" and cur == "A":
+                state[m] = "S"
+                ref_inc[x.name][m] = max(ri, inc)
+            elif st_s == "dead" and cur != "D":
+                state[m] = "D"
+                ref_inc[x.name][m] = max(ri, inc)
+                sim_dead[m] = ref_inc[x.name][m]
+            elif st_s == "alive" and inc > ri:
+                state[m] = "A"
+                ref_inc[x.name][m] = inc
+            elif st_s == "alive" and cur == "D":
+                pr["gossip_stale_alive_after_dead_ignored"] = 1
+
     def check_node(x, ev, now):
         vx = view[x.name]
         for m, info in x._members.items():
@@ -377,13 +536,28 @@ def run(sc):
             old, old_inc = vx[m]
             if st == old and info.incarnation == old_inc:
                 continue
+            if st == "D" and old != "D":
+                # the incarnation at which x now reports m DEAD: that of the verdict it was sent, else what it knew
+                d = sim_dead.get(m, ref_inc[x.name][m])
+                dead_at[x.name][m] = max(dead_at[x.name].get(m, -1), d)
+                seen_since[x.name][m] = -1
+                if m in sim_dead:
+                    pr["gossip_dead_verdict_applied"] = 1
+            if old == "D" and st != "D" and m in dead_at[x.name]:
+                if seen_since[x.name].get(m, -1) <= dead_at[x.name][m]:
+                    raise Violation(f"C13/dead-stays-dead/MembershipProtocol/{_st_name(st)}-on-{ev.event_type}/no-higher-incarnation-received",
+                                    f"{x.name} reported {m} DEAD at incarnation {dead_at[x.name][m]}; the highest incarnation about "
+                                    f"{m} it has received since is {seen_since[x.name].get(m, -1)}, yet during {ev.event_type} at "
+                                    f"t={now:.6f} it reports {m} {_st_name(st)} (its recorded incarnation: {info.incarnation})")
+                pr["gossip_higher_incarnation_revived_dead"] = 1
+                dead_at[x.name].pop(m, None)
             # ---- DEAD never reverts to ALIVE without a higher incarnation (all classes)
             if old == "D" and st != "D" and info.incarnation <= old_inc:
                 raise Violation(f"C13/dead-stays-dead/MembershipProtocol/{_st_name(st)}-on-{ev.event_type}",
                                 f"{x.name} reported {m} DEAD (incarnation {old_inc}) and now reports it {_st_name(st)} "
                                 f"with incarnation {info.incarnation} during {ev.event_type} at t={now:.6f}")
             # ---- accuracy: a live member is never DEAD on a healthy network
-            if st == "D" and klass != "flap" and is_live(m, now):
+            if st == "D" and klass not in ("flap", "gossip") and is_live(m, now):
                 path = "own-suspicion-timeout" if ev.event_type == "MembershipSuspicionTimeout" else \
                     "dead-update-from-peer" if ev.event_type in ("MembershipPing", "MembershipAck") else ev.event_type
                 raise Violation(f"C13/no-false-dead/MembershipProtocol/{path}",
@@ -428,6 +602,10 @@ def run(sc):
             src = ev.context.get("metadata", {}).get("from")
             if src == vname and view[x.name].get(vname, ("A", 0))[0] == "D":
                 pr["dead_member_spoke_again"] = 1
+        if et in ("MembershipPing", "MembershipAck", "MembershipIndirectAck"):
+            note_updates(x, ev.context.get("metadata", {}), et)
+        else:
+            sim_dead.clear()
         check_node(x, ev, now)
         if deadline is not None and now > deadline:
             if not past_deadline_checked[0]:
@@ -485,9 +663,9 @@ def run(sc):
     counters["phi.samples_in_cluster"] = pr["phi_samples"]
     counters.update(fd.counters())
     counters["budget_exhausted"] = budget
-    live = [x for x in nodes if x.name != vname or klass in HEALTHY]
+    live = [x for x in nodes if x.name != vname or klass in HEALTHY or klass == "gossip"]
     cycles_ok = all(x.stats.probes_sent >= 2 * (n - 1) for x in live)
-    nontrivial = (not budget) and cycles_ok and (klass in ("healthy", "healthy-moderate", "flap") or (fd.fired.get("fault.crash", 0) > 0 and past_deadline_checked[0]))
+    nontrivial = (not budget) and cycles_ok and (klass in ("healthy", "healthy-moderate", "flap", "gossip") or (fd.fired.get("fault.crash", 0) > 0 and past_deadline_checked[0]))
     views = []
     for x in nodes:
         c = {"A": 0, "S": 0, "D": 0}
